@@ -27,8 +27,8 @@ Norm(T) == [n |-> T.n, mc |-> T.mc, sel |-> Range(T.sel), off |-> Range(T.off),
             cp |-> T.cp, seq |-> T.seq, res |-> T.res, argsrc |-> T.argsrc]
 Cfgs == [t \in 1..NT |-> Norm(Traces[t])]
 
-VARIABLES tid, i, ph, deliv, blk, awaited, insec, secBoth, failObs, ended, inl, viol, cnt
-vars == <<tid, i, ph, deliv, blk, awaited, insec, secBoth, failObs, ended, inl, viol, cnt>>
+VARIABLES tid, i, ph, deliv, blk, awaited, insec, secBoth, failObs, ended, inl, viol, cnt, late
+vars == <<tid, i, ph, deliv, blk, awaited, insec, secBoth, failObs, ended, inl, viol, cnt, late>>
 
 Cnt0 == [mcfull |-> FALSE, seqdefer |-> FALSE, strict |-> FALSE, tie |-> FALSE,
          failinflight |-> FALSE, both |-> FALSE, waits |-> 0, skips |-> 0, disp |-> 0,
@@ -40,7 +40,7 @@ Init ==
   /\ i = 1
   /\ ph = [k \in 1..Traces[tid].n |-> "idle"]
   /\ deliv = {} /\ blk = FALSE /\ awaited = {} /\ insec = FALSE /\ secBoth = FALSE
-  /\ failObs = FALSE /\ ended = FALSE /\ inl = {} /\ viol = {} /\ cnt = Cnt0
+  /\ failObs = FALSE /\ ended = FALSE /\ inl = {} /\ viol = {} /\ cnt = Cnt0 /\ late = {}
 
 Clauses(S) == {p[2] : p \in {q \in S : q[1]}}
 Mark(names, tag) == viol \cup {[i |-> i, c |-> nm, t |-> tag] : nm \in names}
@@ -85,10 +85,12 @@ Step ==
                             !.mcfull = @ \/ Cardinality(PooledInFlightL(c, ph2)) = c.mc,
                             !.strict = @ \/ \E m \in rd : c.cp[m] < c.cp[n],
                             !.tie = @ \/ \E m \in rd : c.cp[m] = c.cp[n]]
-               /\ UNCHANGED <<deliv, blk, awaited, secBoth, failObs, ended, inl>>
+               /\ UNCHANGED <<late, deliv, blk, awaited, secBoth, failObs, ended, inl>>
        [] e.e = "enter" /\ known ->
             LET ph2 == [ph EXCEPT ![n] = "run"]
-                bad == IF ended THEN {} ELSE Clauses({
+                \* a node that sat in the pool's queue (seen at a stall) and is entered after the failure was observed
+                \* (a node entering a moment after the failure it was dispatched before is a benign race and not meant)
+                bad == (IF n \in late /\ failObs THEN {"C14.started-after-failure"} ELSE {}) \cup IF ended THEN {} ELSE Clauses({
                   <<ph[n] # "disp", "C03.twice">>,
                   <<~OrderOK(c, ph, n), "C02.order">>,
                   <<e.b # (c.res[n] = "main"), "C04.thread">>,
@@ -98,7 +100,7 @@ Step ==
             IN /\ ph' = ph2
                /\ inl' = IF e.k = "sched" THEN inl \cup {n} ELSE inl
                /\ viol' = Mark(bad, "")
-               /\ UNCHANGED <<deliv, blk, awaited, insec, secBoth, failObs, ended, cnt>>
+               /\ UNCHANGED <<late, deliv, blk, awaited, insec, secBoth, failObs, ended, cnt>>
        [] e.e = "exit" /\ known ->
             LET bad == IF ended THEN {} ELSE Clauses({
                   <<ph[n] # "run", "WF.exit">>,
@@ -113,7 +115,7 @@ Step ==
                             !.failinflight = @ \/ (~e.b /\ InFlightL(c, ph) \ {n} # {}),
                             !.bg = @ \/ (blk /\ ~ended /\ n \notin awaited),
                             !.inlinebg = @ \/ (~inline /\ \E m \in inl : ph[m] = "run")]
-               /\ UNCHANGED <<blk, awaited, insec, secBoth, ended, inl>>
+               /\ UNCHANGED <<late, blk, awaited, insec, secBoth, ended, inl>>
        [] e.e = "skip" /\ known ->
             LET bad == Clauses({
                   <<ph[n] # "idle", "C03.twice">>,
@@ -124,10 +126,10 @@ Step ==
                /\ deliv' = deliv \cup {n} /\ insec' = FALSE
                /\ viol' = Mark(bad, "")
                /\ cnt' = [cnt EXCEPT !.skips = @ + 1]
-               /\ UNCHANGED <<blk, awaited, secBoth, failObs, ended, inl>>
+               /\ UNCHANGED <<late, blk, awaited, secBoth, failObs, ended, inl>>
        [] e.e = "seq_defer" ->
             /\ cnt' = [cnt EXCEPT !.seqdefer = TRUE]
-            /\ UNCHANGED <<ph, deliv, blk, awaited, insec, secBoth, failObs, ended, inl, viol>>
+            /\ UNCHANGED <<late, ph, deliv, blk, awaited, insec, secBoth, failObs, ended, inl, viol>>
        [] e.e = "wait_begin" ->
             LET both == IF insec THEN secBoth
                         ELSE KindInFlight(c, "thread") /\ KindInFlight(c, "async")
@@ -142,13 +144,13 @@ Step ==
                /\ viol' = Mark(bad, IF both THEN "both" ELSE "single")
                /\ cnt' = [cnt EXCEPT !.waits = @ + 1, !.both = @ \/ both,
                             !.blockready = @ \/ ReadyD(c, ph, deliv) # {}]
-               /\ UNCHANGED <<ph, deliv, failObs, ended, inl>>
+               /\ UNCHANGED <<late, ph, deliv, failObs, ended, inl>>
        [] e.e = "still_blocked" ->
             LET bad == Clauses({
                   <<~JustifiedL(c, ph), "C08.still">>,
                   <<~blk, "WF.still">>})
             IN /\ viol' = Mark(bad, IF secBoth THEN "both" ELSE "single")
-               /\ UNCHANGED <<ph, deliv, blk, awaited, insec, secBoth, failObs, ended, inl, cnt>>
+               /\ UNCHANGED <<late, ph, deliv, blk, awaited, insec, secBoth, failObs, ended, inl, cnt>>
        [] e.e = "wait_end" ->
             LET S == Range(e.s) \cap 1..c.n
                 bad == Clauses({
@@ -161,7 +163,7 @@ Step ==
                /\ deliv' = deliv \cup {m \in S : ph[m] = "ok"}
                /\ failObs' = (failObs \/ \E m \in S : ph[m] = "fail")
                /\ viol' = Mark(bad, "")
-               /\ UNCHANGED <<ph, insec, secBoth, ended, inl, cnt>>
+               /\ UNCHANGED <<late, ph, insec, secBoth, ended, inl, cnt>>
        [] e.e = "return" ->
             LET bad == Clauses({
                   <<~Complete(c, ph), "C03.missing">>,
@@ -170,7 +172,7 @@ Step ==
                   <<InFlightL(c, ph) # {}, "C09.early-return">>})
             IN /\ viol' = Mark(bad, "")
                /\ cnt' = [cnt EXCEPT !.returned = TRUE]
-               /\ UNCHANGED <<ph, deliv, blk, awaited, insec, secBoth, failObs, ended, inl>>
+               /\ UNCHANGED <<late, ph, deliv, blk, awaited, insec, secBoth, failObs, ended, inl>>
        [] e.e = "raise" ->
             LET bad == Clauses({
                   <<e.k \in {"hang", "harness"}, "C09.hang">>,
@@ -180,23 +182,33 @@ Step ==
                   <<e.k \in {"wrapped", "bare"} /\ ~(n \in 1..c.n /\ ph[n] = "fail"), "C14.blame">>,
                   <<e.k \in {"wrapped", "bare"} /\ ~failObs, "C14.unobserved">>})
             IN /\ viol' = Mark(bad, "")
-               /\ UNCHANGED <<ph, deliv, blk, awaited, insec, secBoth, failObs, ended, inl, cnt>>
+               /\ UNCHANGED <<late, ph, deliv, blk, awaited, insec, secBoth, failObs, ended, inl, cnt>>
        [] e.e = "hang" ->
             /\ viol' = Mark({"C09.hang"}, e.k)
-            /\ UNCHANGED <<ph, deliv, blk, awaited, insec, secBoth, failObs, ended, inl, cnt>>
+            /\ UNCHANGED <<late, ph, deliv, blk, awaited, insec, secBoth, failObs, ended, inl, cnt>>
        [] e.e = "stall" ->
-            /\ viol' = Mark({"WF.stall"}, e.k)
-            /\ UNCHANGED <<ph, deliv, blk, awaited, insec, secBoth, failObs, ended, inl, cnt>>
+            \* nothing happened for the stall timeout.  When a node handed to the pool has not been entered although fewer
+            \* than max_concurrency pooled nodes are running, the pool does not give the scheduler the workers it counts on:
+            \* the slot the scheduler believes it filled stays idle (C08), and nodes in flight that wait for one another
+            \* would never finish (C09).  Any other stall is a problem of the harness (ill-formed trace).
+            \* (a thread node is submitted to the pool at dispatch; an async-thread node reaches the pool when the event loop
+            \* runs, which it does while the scheduler awaits that node)
+            LET waiting == {m \in 1..c.n : ph[m] = "disp" /\ (c.res[m] = "thread" \/ (c.res[m] = "async" /\ blk /\ e.k = "async" /\ m \in awaited))}
+                running == {m \in 1..c.n : ph[m] = "run" /\ Pooled(c, m)}
+                starved == waiting # {} /\ Cardinality(running) < c.mc /\ ~ended
+            IN /\ viol' = Mark(IF starved THEN {"C08.dispatched-node-not-started", "C09.dispatched-node-not-started"} ELSE {"WF.stall"}, e.k)
+               /\ late' = IF starved THEN late \cup waiting ELSE late
+               /\ UNCHANGED <<ph, deliv, blk, awaited, insec, secBoth, failObs, ended, inl, cnt>>
        [] e.e = "op_end" ->
             /\ ended' = TRUE
-            /\ UNCHANGED <<ph, deliv, blk, awaited, insec, secBoth, failObs, inl, viol, cnt>>
+            /\ UNCHANGED <<late, ph, deliv, blk, awaited, insec, secBoth, failObs, inl, viol, cnt>>
        [] e.e \in {"op", "exec_begin", "exec_end", "pool_exit"} ->
-            UNCHANGED <<ph, deliv, blk, awaited, insec, secBoth, failObs, ended, inl, viol, cnt>>
+            UNCHANGED <<late, ph, deliv, blk, awaited, insec, secBoth, failObs, ended, inl, viol, cnt>>
        [] OTHER ->
             \* a node event for something that is not a call site of the configuration (an argument holder executed,
             \* a foreign node): C03.extra; any other unknown event is an ill-formed trace
             /\ viol' = Mark({IF e.e \in {"dispatch", "enter", "exit", "skip"} /\ ~known THEN "C03.extra" ELSE "WF.unknown-event"}, e.e)
-            /\ UNCHANGED <<ph, deliv, blk, awaited, insec, secBoth, failObs, ended, inl, cnt>>
+            /\ UNCHANGED <<late, ph, deliv, blk, awaited, insec, secBoth, failObs, ended, inl, cnt>>
 
 Spec == Init /\ [][Step]_vars
 
